@@ -4,7 +4,9 @@ import (
 	"context"
 	"errors"
 	"fmt"
+	"runtime"
 	"strings"
+	"sync"
 	"time"
 
 	goerrors "github.com/ajitpratap0/GoSQLX/pkg/errors"
@@ -257,6 +259,89 @@ func runC13(c *runCtx) {
 					res.fail("cause-unreachable:cancellation", "the context's error is not reachable with errors.Is from the error of a cancelled call",
 						map[string]any{"sql": sql, "poll": k, "cause": cause.Error()}, err.Error())
 				}
+			}
+		}
+	}
+	// the same input produces the same (code, message, location) whatever other parses run at the same time: rejected
+	// multi-line statements of different layouts, parsed concurrently through the position-tracking entry points,
+	// against their single-threaded baseline
+	{
+		mkBad := func(width, gap int) string {
+			var b strings.Builder
+			b.WriteString("SELECT")
+			for i := 0; i < width; i++ {
+				b.WriteString(strings.Repeat("\n", 1+(i%gap)) + strings.Repeat(" ", i%7) + "c" + fmt.Sprint(i) + ",")
+			}
+			b.WriteString("\n  FROM t WHERE (a = 1 AND\n\n b = ) ORDER BY")
+			return b.String()
+		}
+		describe := func(err error) string {
+			if err == nil {
+				return "nil"
+			}
+			var ge *goerrors.Error
+			if errors.As(err, &ge) {
+				return fmt.Sprintf("%s|%s|%d:%d", ge.Code, ge.Message, ge.Location.Line, ge.Location.Column)
+			}
+			return "unstructured|" + err.Error()
+		}
+		entries := map[string]func(sql string) string{
+			"gosqlx.Parse": func(sql string) string { _, err := gosqlx.Parse(sql); return describe(err) },
+			"gosqlx.ParseWithRecovery": func(sql string) string {
+				_, errs := gosqlx.ParseWithRecovery(sql)
+				var ds []string
+				for _, e := range errs {
+					ds = append(ds, describe(e))
+				}
+				return strings.Join(ds, ";")
+			},
+			"gosqlx.Validate": func(sql string) string { return describe(gosqlx.Validate(sql)) },
+			"Parser.ParseFromModelTokensWithPositions": func(sql string) string {
+				toks := tokenizeFresh(sql)
+				if toks == nil {
+					return "lex"
+				}
+				p := parser.NewParser()
+				_, err := p.ParseFromModelTokensWithPositions(toks)
+				return describe(err)
+			},
+		}
+		// few processors and many workers: goroutines share the per-processor caches of the pools and are preempted
+		// in the middle of a parse
+		defer runtime.GOMAXPROCS(runtime.GOMAXPROCS(2))
+		width := c.n(6000, 12000)
+		var texts []string
+		for w := 0; w < 8; w++ {
+			texts = append(texts, mkBad(width+w*13, 1+w%4))
+		}
+		for name, f := range entries {
+			base := make([]string, len(texts))
+			for i, t := range texts {
+				base[i] = f(t)
+			}
+			var wg sync.WaitGroup
+			var mu sync.Mutex
+			bad := ""
+			for i := range texts {
+				wg.Add(1)
+				go func(i int) {
+					defer wg.Done()
+					for rep := 0; rep < c.n(40, 200); rep++ {
+						if got := f(texts[i]); got != base[i] {
+							mu.Lock()
+							if bad == "" {
+								bad = fmt.Sprintf("worker %d: %s instead of %s", i, truncate(got, 200), truncate(base[i], 200))
+							}
+							mu.Unlock()
+							return
+						}
+					}
+				}(i)
+			}
+			wg.Wait()
+			res.count("concurrent-errors|"+name, true)
+			if bad != "" {
+				res.fail("error-differs-under-concurrency:"+name, "the error reported for an input changes when other inputs are parsed at the same time", map[string]any{"entry": name, "workers": len(texts), "tokens_per_input": 2 * width}, bad)
 			}
 		}
 	}
